@@ -228,11 +228,12 @@ example : Spec.frameWf c04NaRep = true :=
 example : Spec.frameWf c04Stun6Rep = true :=
   reply_wf c04Cfg c04Env [] c04Stun6Req _ (by decide) (outIs_eq (by decide +kernel))
 
-/-- a TCP data segment (HTTP request, valid cookie) gets a 417-byte reply frame (HTTP 401 page) -/
-example : ∃ r, (step c04Cfg c04Env [] c04DataReq).out = .ok (some r) ∧ r.length = 417 ∧
-    Spec.frameWf r = true := by
+/-- a TCP data segment (HTTP request, valid cookie) gets a reply frame carrying the HTTP 401 page
+    (54 bytes of Ethernet/IPv4/TCP headers + the response, whose text is generated: Gen/Texts.lean) -/
+example : ∃ r, (step c04Cfg c04Env [] c04DataReq).out = .ok (some r) ∧
+    r.length = 54 + (httpReplyBytes c04Env).length ∧ Spec.frameWf r = true := by
   have hc : (match (step c04Cfg c04Env [] c04DataReq).out with
-      | .ok (some r) => r.length == 417
+      | .ok (some r) => r.length == 54 + (httpReplyBytes c04Env).length
       | _ => false) = true := by decide +kernel
   split at hc
   · rename_i r hr
